@@ -27,6 +27,9 @@ VERIF = os.path.dirname(os.path.dirname(os.path.abspath(__file__)))
 REPO = os.environ.get("VERIF_REPO", "/repo")
 TLA_CP = "/opt/veriftools/tla/tla2tools.jar:/opt/veriftools/tla/CommunityModules-deps.jar"
 NCPU = os.cpu_count() or 4
+# evidence/replays go to /verif/evidence unless redirected (used by tools/seedcheck.sh so that a run against a
+# mutated scratch worktree never overwrites the evidence of the unchanged tree)
+EVID = os.environ.get("VERIF_EVIDENCE_DIR") or os.path.join(VERIF, "evidence")
 
 
 class InfraError(Exception):
@@ -114,7 +117,7 @@ class Ctx:
         self.known = self._load_known()
         self._harness_copy = None
         self.missing_gates = []
-        shutil.rmtree(os.path.join(VERIF, "evidence", "replays", pid), ignore_errors=True)
+        shutil.rmtree(os.path.join(EVID, "replays", pid), ignore_errors=True)
 
     # ------------------------------------------------------------------ basics
     def log(self, msg):
@@ -402,7 +405,7 @@ class Ctx:
         return True
 
     def _write_replay(self, signature, detail, kind):
-        d = os.path.join(VERIF, "evidence", "replays", self.pid)
+        d = os.path.join(EVID, "replays", self.pid)
         os.makedirs(d, exist_ok=True)
         h = hashlib.sha1(signature.encode()).hexdigest()[:10]
         p = os.path.join(d, "%s_%s.json" % (kind, h))
@@ -434,10 +437,10 @@ class Ctx:
             "wall_s": round(wall, 2),
             "violations": len(self.violations),
         }
-        os.makedirs(os.path.join(VERIF, "evidence"), exist_ok=True)
-        tmp = os.path.join(VERIF, "evidence", ".%s.json.tmp" % self.pid)
+        os.makedirs(EVID, exist_ok=True)
+        tmp = os.path.join(EVID, ".%s.json.tmp" % self.pid)
         json.dump(ev, open(tmp, "w"), indent=1, default=str)
-        os.replace(tmp, os.path.join(VERIF, "evidence", "%s.json" % self.pid))
+        os.replace(tmp, os.path.join(EVID, "%s.json" % self.pid))
         for sig, detail in sorted(self.known_hits.items()):
             self._write_replay(sig, detail, "known")
             print("KNOWN-FINDING: property=%s %s" % (self.pid, sig), flush=True)
